@@ -204,6 +204,25 @@ def body_eq(case, ctx):
                 if not got.ok or bool(got.value) != expect:
                     raise Violation("eq:other-dtype", expected=expect, got=got.brief(), mode=mode, int_field_on=name)
             return
+    if mode == "entry-width-differs" and n >= 1:
+        # one field holds entries of another width whose values broadcast onto the other object's: (n, 1) against (n, w) with every
+        # column repeating the first, or (n,) against (n, n) with every row repeating the 1-D field - entry i differs, hence not equal
+        j = case["j"] % k
+        col = fs[j].reshape(n, -1)[:, :1].copy()
+        if case["p"] % 2 and n >= 2:
+            a, b, form = col[:, 0].copy(), np.tile(col[:, 0], (n, 1)), "1-D vs (n, n)"
+        else:
+            a, b, form = col, np.repeat(col, 2 + case["p"] % 3, axis=1), "(n, 1) vs (n, w)"
+        fa, fb = [f.copy() for f in fs], [f.copy() for f in fs]
+        fa[j], fb[j] = a, b
+        oa, ob = cls(k)(*fa), cls(k)(*fb)
+        ctx.label("k:%d" % k, "expect-unequal:" + mode, "width-form:" + form)
+        ctx.nt()
+        for name, f in (("narrow-left", lambda: oa == ob), ("narrow-right", lambda: ob == oa)):
+            got = lib(f)
+            if not got.ok or bool(got.value):
+                raise Violation("eq:entry-width-differs", expected=False, got=got.brief(), form=form, field=j, order=name)
+        return
     if mode in ("one-vs-repeats", "repeats-vs-one") and n >= 1:
         # a one-entry object against a longer object whose every entry repeats it: different lengths, hence not equal
         m = 2 + case["p"] % 3
@@ -326,7 +345,7 @@ def concat_case(draw, tier):
 @st.composite
 def eq_case(draw, tier):
     fields, n = draw(fields_st())
-    return {"fields": fields, "n": n, "mode": draw(st.sampled_from(["same", "change", "change", "shorter", "views", "views", "one-vs-repeats", "repeats-vs-one", "other-dtype-same", "other-dtype-differs"])),
+    return {"fields": fields, "n": n, "mode": draw(st.sampled_from(["same", "change", "change", "shorter", "views", "views", "one-vs-repeats", "repeats-vs-one", "entry-width-differs", "entry-width-differs", "other-dtype-same", "other-dtype-differs"])),
             "j": draw(st.integers(0, 3)), "p": draw(st.integers(0, 1000))}
 
 
